@@ -482,6 +482,48 @@ Proof.
   rewrite H9, H10, H11, H12. repeat split; try reflexivity. apply reset_devs_rel.
 Qed.
 
+(* ------------------------------------------------------------------ exactly when the loader panics *)
+
+(* a run of 65536 or more INITIALISED words (reserved runs of that size are cleared modulo 2^16) *)
+Definition big_init_chunk (c : list (option Z)) : Prop :=
+  65536 <= Z.of_nat (length c) /\ exists v r, c = Some v :: r.
+
+Lemma copy_chunks_none_iff : forall cs m s, copy_chunks m s cs = None <-> Exists big_init_chunk cs.
+Proof.
+  induction cs as [|c cs IH]; intros m s.
+  - cbn [copy_chunks]. split; [discriminate|]. intro H. inversion H.
+  - cbn [copy_chunks]. rewrite Exists_cons.
+    destruct (65536 <=? Z.of_nat (length c)) eqn:E.
+    + destruct c as [|[v|] c'].
+      * rewrite IH. split; [intro H; right; exact H|]. intros [[_ (v & r & Hc)]|H]; [discriminate|exact H].
+      * split; [|reflexivity]. intros _. left. split; [blia|]. exists v, c'. reflexivity.
+      * rewrite IH. split; [intro H; right; exact H|]. intros [[_ (v & r & Hc)]|H]; [discriminate|exact H].
+    + rewrite IH. split; [intro H; right; exact H|]. intros [[Hl _]|H]; [blia|exact H].
+Qed.
+
+Lemma load_blocks_none_iff : forall bs m al,
+  load_blocks m bs al = None <-> Exists (fun b : block => Exists big_init_chunk (chunk_by_some (snd b))) bs.
+Proof.
+  induction bs as [|[s ws] r IH]; intros m al.
+  - cbn [load_blocks]. split; [discriminate|]. intro H. inversion H.
+  - cbn [load_blocks]. rewrite Exists_cons. cbn [snd].
+    destruct (copy_obj_block m s ws) as [m'|] eqn:E.
+    + rewrite IH. split; [intro H; right; exact H|]. intros [H|H]; [|exact H].
+      apply (copy_chunks_none_iff (chunk_by_some ws) m s) in H. unfold copy_obj_block in E. congruence.
+    + split; [|reflexivity]. intros _. left. apply (copy_chunks_none_iff (chunk_by_some ws) m s). exact E.
+Qed.
+
+Lemma load_obj_panic_iff s bs he :
+  load_obj s bs he = LoadPanic <->
+  he = false /\ Exists (fun b : block => Exists big_init_chunk (chunk_by_some (snd b))) bs.
+Proof.
+  unfold load_obj. destruct he.
+  - split; [discriminate|]. intros [H _]. discriminate.
+  - destruct (load_blocks (s_mem s) bs []) as [[m al]|] eqn:E.
+    + split; [discriminate|]. intros [_ H]. apply (load_blocks_none_iff bs (s_mem s) []) in H. congruence.
+    + split; [|reflexivity]. intros _. split; [reflexivity|]. apply (load_blocks_none_iff bs (s_mem s) []). exact E.
+Qed.
+
 (* ------------------------------------------------------------------ packaged statements *)
 
 Lemma disjoint_by_sweep bs :
